@@ -30,6 +30,10 @@ func VrfC04Pin() {
 		cons.pins = append(cons.pins, existing)
 	}
 	opts := vrfSymbolicOptions(now, true)
+	// a request may name the CID itself as its update source: that is an ordinary (re-)pin
+	if vrf_param("self_update") == 1 && vrf_choice("update_source_is_the_cid_itself", 2) == 1 {
+		opts.PinUpdate = target
+	}
 	optsCopy := opts
 	optsCopy.Metadata = map[string]string{}
 	for k, v := range opts.Metadata {
